@@ -5,6 +5,16 @@ package main
 // of the sanitiser and of the ring map's Set / Get.  None of these functions fits the translator's
 // expression subset (maps, slices of structs, net.ParseIP, method values), so the tie is: listings
 // (guards, order, presence) + differential runs.
+//
+// Attribution clause: listings of the three functions that decide which Set / Get is performed for a
+// carrier and for a session — httpHandler.ServeHTTP (addr := clientAddr(client_ip), handed to
+// turbotunnelMode), turbotunnelMode (Set(clientID, addr) with the ClientID read from the carrier, before
+// any packet of the carrier is queued) and SnowflakeListener.acceptStreams (one Get before the
+// AcceptStream loop; every accepted stream is wrapped with the variable assigned from that Get) — plus
+// the signatures of the latter two (which parameter `addr` / `conn` is).
+
+const attrCalls = `^clientIDAddrMap\.[A-Za-z]+$|^clientAddr$|^turbotunnelMode$|^r\.URL\.Query\(\)\.Get$|^io\.ReadFull$` +
+	`|^encapsulation\.ReadData$|\.QueueIncoming$|\.queueConn$|\.AcceptStream$|^smux\.Server$|^lit:SnowflakeClientConn$`
 
 func init() {
 	register(&group{name: "ServerLib",
@@ -12,11 +22,23 @@ func init() {
 		specials: []specialSpec{
 			{lean: "clientIDAddrMap_init", kind: "exprText", dir: "server/lib", name: "clientIDAddrMap"},
 			{lean: "newClientIDMap_ret", kind: "returnText", dir: "server/lib", name: "newClientIDMap"},
+			{lean: "sig_turbotunnelMode", kind: "signature", dir: "server/lib", name: "turbotunnelMode"},
+			{lean: "sig_acceptStreams", kind: "signature", dir: "server/lib", name: "SnowflakeListener.acceptStreams"},
+			{lean: "sig_clientAddr", kind: "signature", dir: "server/lib", name: "clientAddr"},
+			{lean: "users_clientIDAddrMap", kind: "identUsers", dir: "server/lib", name: "clientIDAddrMap"},
+			{lean: "users_turbotunnelMode", kind: "identUsers", dir: "server/lib", name: "turbotunnelMode"},
+			{lean: "users_acceptStreams", kind: "identUsers", dir: "server/lib", name: ".acceptStreams"},
+			{lean: "users_SnowflakeClientConn", kind: "identUsers", dir: "server/lib", name: "SnowflakeClientConn"},
+			{lean: "users_address", kind: "identUsers", dir: "server/lib", name: ".address"},
+			{lean: "remoteAddr_ret", kind: "returnText", dir: "server/lib", name: "SnowflakeClientConn.RemoteAddr"},
 		},
 		skels: []skelSpec{
 			{lean: "stmts_clientAddr", dir: "server/lib", name: "clientAddr", assigns: `.`, returns: true},
 			{lean: "stmts_Set", dir: "server/lib", name: "clientIDMap.Set", assigns: `.`, returns: true},
 			{lean: "stmts_Get", dir: "server/lib", name: "clientIDMap.Get", assigns: `.`, returns: true},
+			{lean: "stmts_ServeHTTP", dir: "server/lib", name: "httpHandler.ServeHTTP", calls: attrCalls, assigns: `.`, returns: true},
+			{lean: "stmts_turbotunnelMode", dir: "server/lib", name: "turbotunnelMode", calls: attrCalls, assigns: `.`, returns: true},
+			{lean: "stmts_acceptStreams", dir: "server/lib", name: "SnowflakeListener.acceptStreams", calls: attrCalls, assigns: `.`, returns: true},
 		},
 	})
 }
